@@ -50,6 +50,9 @@ type c04Case struct {
 	Flusher  int       `json:"flusher"`  // 0 none, 1 lazy, 2 forced
 	Dumper   bool      `json:"dumper"`
 	Reopen   bool      `json:"reopen"`
+	// CloseRace: the graceful shutdown runs while the flusher / hint dumper loops are still active (as in production,
+	// where those goroutines are never stopped); the directory image taken when Close returns is what is restarted
+	CloseRace bool `json:"closerace,omitempty"`
 	// filled when a violation is found: the recorded history (the replay re-validates it without running anything)
 	History []c04Event `json:"history,omitempty"`
 	Final   []string   `json:"final,omitempty"`
@@ -217,6 +220,45 @@ func c04Execute(c *c04Case) (hist []c04Event, final []string, finalVers []int32,
 		}(ci, script)
 	}
 	wg.Wait()
+	if c.Reopen && c.CloseRace && (c.Flusher > 0 || c.Dumper) {
+		// clients are done; shut down under the noses of the background actors
+		if e := hooks.waitFor("rotation flushes", func() bool { return hooks.rotExit >= hooks.rotEnter && hooks.rotEnter >= hooks.counts["ds.rotate"] }); e != nil {
+			return hist, nil, nil, e
+		}
+		closeStore(s)
+		img := home + "-img"
+		os.RemoveAll(img)
+		defer os.RemoveAll(img)
+		if e := verifkit.CopyDir(home, img); e != nil {
+			return hist, nil, nil, infraf("copy image: %v", e)
+		}
+		close(stop)
+		bg.Wait()
+		discardStore(s)
+		applyCfg(&c.Cfg, img)
+		s2, e := openStore(&c.Cfg)
+		if e != nil {
+			return hist, nil, nil, fmt.Errorf("restart of the image taken when Close returned (background actors still running) failed: %v", e)
+		}
+		ids := make([]string, len(c.Cfg.Keys))
+		vers := make([]int32, len(c.Cfg.Keys))
+		for k, key := range c.Cfg.Keys {
+			p, _, err := s2.Get(newKI(key), false)
+			if err != nil {
+				return hist, nil, nil, fmt.Errorf("after shutdown under running flusher/dumper and restart: Get(%q): %v", key, err)
+			}
+			if p != nil {
+				vers[k] = p.Ver
+				if p.Ver > 0 {
+					ids[k] = c04ID(p.Body)
+				}
+			}
+			freePayload(p)
+		}
+		closeStore(s2)
+		discardStore(s2)
+		return hist, ids, vers, nil
+	}
 	close(stop)
 	bg.Wait()
 	if e := hooks.waitFor("rotation flushes", func() bool { return hooks.rotExit >= hooks.rotEnter && hooks.rotEnter >= hooks.counts["ds.rotate"] }); e != nil {
@@ -473,6 +515,7 @@ func c04Gen(t *rapid.T) *c04Case {
 	c.Flusher = rapid.IntRange(0, 2).Draw(t, "flusher")
 	c.Dumper = rapid.Bool().Draw(t, "dumper")
 	c.Reopen = rapid.IntRange(0, 2).Draw(t, "reopen") == 0
+	c.CloseRace = c.Reopen && rapid.Bool().Draw(t, "closerace")
 	return c
 }
 
@@ -507,6 +550,9 @@ func TestVerif_C04_Concurrent(t *testing.T) {
 		}
 		if c.Reopen {
 			labels = append(labels, "reopen")
+		}
+		if c.Reopen && c.CloseRace && (c.Flusher > 0 || c.Dumper) {
+			labels = append(labels, "shutdown_under_background_actors")
 		}
 		labels = append(labels, "buckets="+strconv.Itoa(c.Cfg.NumBucket))
 		sample := map[string]interface{}{"cfg": c.Cfg, "clients": len(c.Clients), "first_script": c.Clients[0], "schedule": c.Schedule, "ops_recorded": len(hist)}
